@@ -916,6 +916,10 @@ func (sm *Subscriptions) QueueFlush() {
 	for _, binding := range sm.whenQueue {
 		closeSafe(binding.ch)
 	}
+	// closed means gone (a binding left here would be closed again once its
+	// tick comes up)
+	sm.whenQueueEnds = nil
+	sm.whenQueue = nil
 }
 
 // ///// ///// /////
